@@ -31,11 +31,12 @@ def cases(rng, tier):
         for before in (0, 1, 2):
             for after in (0, 1, 2):
                 for close in ("ctx", "explicit"):
-                    out.append({"fault": fault, "before": before, "after": after, "close": close, "chain": rng.choice(["LZMA2", "COPY", "DEFLATE", "ZSTD"]), "seed": rng.getrandbits(32),
-                                "header": rng.choice(["encoded", "raw"])})
+                    for dirbefore in ((False, True) if before else (False,)):
+                        out.append({"fault": fault, "before": before, "after": after, "close": close, "chain": rng.choice(["LZMA2", "COPY", "DEFLATE", "ZSTD"]), "seed": rng.getrandbits(32),
+                                    "header": rng.choice(["encoded", "raw"]), "dirbefore": dirbefore})
     if tier == "thorough":
         for _ in range(4000):
-            out.append({"fault": rng.choice(FAULTS), "before": rng.randint(0, 3), "after": rng.randint(0, 2), "close": rng.choice(["ctx", "explicit"]),
+            out.append({"fault": rng.choice(FAULTS), "before": rng.randint(0, 3), "after": rng.randint(0, 2), "close": rng.choice(["ctx", "explicit"]), "dirbefore": rng.random() < 0.4,
                         "chain": rng.choice(["LZMA2", "COPY", "DEFLATE", "ZSTD", "BZIP2", "LZMA"]), "seed": rng.getrandbits(32), "header": rng.choice(["encoded", "raw"])})
     return out
 
@@ -135,6 +136,8 @@ def run_case(case):
         return o_lstat(self, *a, **k)
 
     model = []
+    dirs = []
+    order = []
     faulty_obj = None
     raised = None
     with pz.scratch("vf-c15-") as d:
@@ -143,8 +146,16 @@ def run_case(case):
         arc = os.path.join(d, "a.7z")
         counter = [0]
 
-        def good_call(z, tag):
+        def good_call(z, tag, how=None):
             counter[0] += 1
+            if how == "write_dir":
+                name = "%s-%d-dir" % (tag, counter[0])
+                p = os.path.join(src, "d%d" % counter[0])
+                os.mkdir(p)
+                z.write(p, name)
+                dirs.append(name)
+                order.append(name)
+                return
             how = r.choice(["writestr", "writef", "write"])
             name = "%s-%d-%s" % (tag, counter[0], how)
             data = G.materialise(G.content_recipe(r, max_len=20000))
@@ -158,6 +169,7 @@ def run_case(case):
                     f.write(data)
                 z.write(p, name)
             model.append((name, data))
+            order.append(name)
 
         pathlib.Path.open, pathlib.Path.lstat = p_open, p_lstat
         z = None
@@ -166,8 +178,9 @@ def run_case(case):
             z = py7zr.SevenZipFile(arc, "w", filters=filt)
             if case["header"] == "raw":
                 z.set_encoded_header_mode(False)
-            for _ in range(case["before"]):
-                good_call(z, "before")
+            for i in range(case["before"]):
+                # optionally the entry right before the faulty call is a directory (no stream of its own)
+                good_call(z, "before", "write_dir" if (case.get("dirbefore") and i == case["before"] - 1) else None)
             # ---- the faulty call
             vdata = G.materialise({"len": 70000, "tex": "text", "seed": 5})
             vpath = os.path.join(src, "victim.bin")
@@ -216,7 +229,7 @@ def run_case(case):
         obs["histories"] = 1
         # any failure of read() - also at the very first byte - is 'a source failing while being read'
         midread = "read-fails" in fault
-        names = [n for n, _ in model]
+        names = list(order)  # members in call order, directory entries included
         tag = "%s in call %d, %d calls after, close=%s, chain %s" % (fault, case["before"], case["after"], case["close"], case["chain"])
         # retried behind the caller's back?
         if state["opens_after"] or (faulty_obj is not None and faulty_obj.reads_after_failure):
@@ -267,7 +280,7 @@ def run_case(case):
                     if wrong or (victim_listed and res[2].get("victim") != vdata):
                         viol.append({"key": "midread-opens-with-wrong-contents/%s/%s" % (fault, who), "what": "%s: %s opens the file successfully: lists %r, wrong bytes for %r%s" % (
                             tag, who, listed[:6], wrong[:3], " and a partial 'victim'" if victim_listed else "")})
-    cell = "%s|at%d|after%d|%s|%s" % (fault, case["before"], case["after"], case["close"], case["chain"])
+    cell = "%s|at%d|after%d|%s|%s|%s" % (fault, case["before"], case["after"], case["close"], case["chain"], "dir-before" if case.get("dirbefore") else "-")
     sample = {"fault": fault, "before": case["before"], "after": case["after"], "close": case["close"], "raised": None if raised is None else type(raised).__name__,
               "py7zr": py[0] if py else None, "reference": ref[0] if ref else None}
     if viol:
